@@ -220,6 +220,12 @@ theorem map_pointwise {ε β γ : Type} (f : β → Except ε γ) (g : β → γ
   | nil => rfl
   | cons v vs ih => simp [List.mapM_cons, h, ih, bind, Except.bind, pure, Except.pure]
 
+/-- why the model (and the property) take the VALUE into the field before anything else: the same product formed in the value's own
+    narrow integer type is another number (8-bit: 50 · 100 wraps to -120; numpy keeps `int8_array * 100` in int8), so a conversion that
+    multiplies the caller's array by an integer table entry first — `value * from / to` instead of `value * (from / to)` — is not
+    multiplication by the SI factor.  The harness's argument oracle (every dtype, magnitudes to the ends of its range) searches for this. -/
+example : ((50 : BitVec 8) * 100).toInt = -120 ∧ ((50 : BitVec 8) * 100).toInt ≠ 50 * 100 := by decide
+
 /-! ## Refusals: a missing or unknown unit / mode / basis never yields a number -/
 
 theorem checkUnit_refuses (t : List (String × Nat × Nat)) (u : Option String)
